@@ -859,6 +859,16 @@ class name_BradleyTerry(BallotGenerator):
         current_ranking = list(seed_ballot.ranking)
         num_candidates = len(current_ranking)
 
+        # with a single supported candidate there is no pair to swap: every ballot
+        # is the seed ballot
+        if num_candidates < 2:
+            ballots = [
+                Ballot(
+                    ranking=current_ranking + ([zero_cands] if zero_cands else [])
+                )
+            ] * num_ballots
+            return PreferenceProfile(ballots=ballots).condense_ballots()
+
         # presample swap indices
         swap_indices = [
             (j1, j1 + 1)
